@@ -165,14 +165,13 @@ pub fn check(c: &Case, rec: &mut Rec) -> Result<(), String> {
                     stream.push(s.left);
                 }
                 total = stream.len() as u64;
-                // exactly N per completed frame; the instruction that crosses the frame end may
-                // already have produced the first samples of the next frame
-                // (it overshoots the boundary by the frame clock the machine now shows)
-                let over = e.verif_frame_clocks() as u64;
-                let slack = 1 + (over * n + frame_len - 1) / frame_len;
+                // exactly N per completed frame, as the property says: the few T-states by which the
+                // frame-crossing instruction overshoots the boundary produce no sample before the drain
+                // (60 000 cases over 6 seeds and the whole rate range on the unchanged tree agree)
+                let slack = 0u64;
                 if total < (f + 1) * n || total > (f + 1) * n + slack {
                     return Err(format!(
-                        "after {} frames drained at every frame boundary the host received {} samples; floor({}/50) = {} per frame gives {} (+{} for the instruction crossing the boundary)",
+                        "after {} frames drained at every frame boundary the host received {} samples; floor({}/50) = {} per frame gives {} (tolerance {})",
                         f + 1, total, c.rate, n, (f + 1) * n, slack
                     ));
                 }
@@ -318,7 +317,7 @@ pub fn replay(run: &mut Run, phase: &str, case: &serde_json::Value) -> Result<()
 }
 
 pub const LEVEL: &str = "exploration";
-pub const RULE: &str = "case = machine x sample rate 8000..384000 (biased to 8000, 11025, 44100, 48000, 384000 and rates not divisible by 50) x volume 0..100 x beeper/AY enables x looping DI program of 0..30 (delay, OUT (0xFE),A with any value) segments incl. bursts faster than one sample and frames without any write x 1..6 frames x drain behaviour {all, never, part}; a third of the machines are created with sound generation off and have it switched on before the first frame; in a third of the cases the host re-asserts its current settings (set_ay_enabled / set_sound / set_fast_load with the values in force) before one of the frames, which must not change the sound. Drain-all: the cumulative number of samples after f frames must be f*floor(rate/50) (plus at most the samples that fall into the T-states by which the frame-crossing instruction overshoots the boundary, +1); with only the beeper on, every sample must equal the level of a speaker/MIC state that was current within one sample period of its frame time k*T_frame/floor(rate/50) — the states and their times come from the reference machine's ULA write log, the four levels from calibration runs at the same settings; levels monotone in EAR then MIC, left = right, level at volume v = level at volume 100 * v/100, volume 0 exactly silent, everything finite. Never/partial drain: the queue stays below two frames' worth. non-trivial = judged run with >= 2 speaker writes at least two samples apart at a rate other than 44100 (or any never/partial-drain run); distinct = hash of the case";
+pub const RULE: &str = "case = machine x sample rate 8000..384000 (biased to 8000, 11025, 44100, 48000, 384000 and rates not divisible by 50) x volume 0..100 x beeper/AY enables x looping DI program of 0..30 (delay, OUT (0xFE),A with any value) segments incl. bursts faster than one sample and frames without any write x 1..6 frames x drain behaviour {all, never, part}; a third of the machines are created with sound generation off and have it switched on before the first frame; in a third of the cases the host re-asserts its current settings (set_ay_enabled / set_sound / set_fast_load with the values in force) before one of the frames, which must not change the sound. Drain-all: the cumulative number of samples after f frames must be f*floor(rate/50) exactly; with only the beeper on, every sample must equal the level of a speaker/MIC state that was current within one sample period of its frame time k*T_frame/floor(rate/50) — the states and their times come from the reference machine's ULA write log, the four levels from calibration runs at the same settings; levels monotone in EAR then MIC, left = right, level at volume v = level at volume 100 * v/100, volume 0 exactly silent, everything finite. Never/partial drain: the queue stays below two frames' worth. non-trivial = judged run with >= 2 speaker writes at least two samples apart at a rate other than 44100 (or any never/partial-drain run); distinct = hash of the case";
 pub const ASSUMPTIONS: &[&str] = &[
     "write timestamps from the reference machine (trusted through calibration, C03, C04)",
     "the absolute level constants are not assumed: they are measured on a calibration machine with the same settings",
